@@ -6,6 +6,7 @@ import (
 	"math"
 	"math/big"
 	"math/rand"
+	"strconv"
 	"strings"
 )
 
@@ -47,6 +48,7 @@ func (n Num) Float() (float64, bool) {
 var namedDoubles = map[string]float64{
 	"halfpred": math.Float64frombits(0x3FDFFFFFFFFFFFFF), "-halfpred": -math.Float64frombits(0x3FDFFFFFFFFFFFFF),
 	"odd52": 4503599627370497, "-odd52": -4503599627370497,
+	"three62": 13835058055282163712, "-three62": -13835058055282163712,
 }
 
 func numOf(f float64) Num {
@@ -115,6 +117,11 @@ func (n Num) literal() (string, bool) {
 	switch n.C {
 	case "zero":
 		return "0", n.S > 0
+	case "named":
+		if f, ok := namedDoubles[n.ID]; ok && f > 0 {
+			return strconv.FormatFloat(f, 'f', -1, 64), true // the shortest decimal numeral that reads back to it
+		}
+		return "", false
 	case "pow2":
 		// 2^e, e >= 0: the exact decimal integer
 		if n.S < 0 || n.E < 0 {
